@@ -329,6 +329,18 @@ class _FakeSocket:
         e = inbox.pop(i)
         return e[0], (e[1], 500)
 
+    def recvfrom_into(self, buffer, nbytes=0, flags=0):
+        data, addr = self.recvfrom(len(buffer))
+        n = min(len(data), len(buffer) if not nbytes else nbytes)
+        memoryview(buffer)[:n] = data[:n]
+        return n, addr
+
+    def recv(self, n):
+        return self.recvfrom(n)[0]
+
+    def recv_into(self, buffer, nbytes=0, flags=0):
+        return self.recvfrom_into(buffer, nbytes, flags)[0]
+
     def sendto(self, data, dst):
         CTX.ep.sendto(self.addr[0], dst, bytes(data))
 
